@@ -14,7 +14,7 @@ ASSUMPTIONS = ["results are compared with type-and-value equality (no tolerance:
                "a dict-valued reading named without a field counts as missing (the library's own _get_clean_readings convention); raises on it are "
                "reported under the separate clause raises-on-dict",
                "Hexital dict form passes `indicator=` through `args` because a top-level `indicator` key selects the indicator branch"]
-PARTIAL = ''
+PARTIAL = "full strength for the pattern and movement functions; since round 8 also the public helpers behind the patterns (hexital/analysis/utils.py, modelled in HexModel/Analysis/Utils.lean and tied by the component analysis.utils): default index = last index, causality for every valid non-negative index, the exact divisor (always length, also on a clamped window) - utils_default, utils_causal, utils_no_lookahead, utils_divisor(_exact); and the exact behaviour on NEGATIVE indices: the averaging helpers do not normalise them (empty window, 0 / length), only candle_shadow_long / _verylong wrap - utils_negative_index, utils_negative_index_wrap, utils_minus_one_ne_last (replayed on the library; the shipped patterns normalise the index first and are unaffected; the property quantifies over pattern and movement functions, so this is documented behaviour of the helpers, not a violation)"
 
 
 def oracle(ctx):
